@@ -2,10 +2,15 @@
 (* (G) the LRU URL grammar (product of the component forms of lrugen.json), rendered by TLC *)
 EXTENDS C12, Randomization
 CONSTANTS SN   \* 0 = the full product, n = RandomSubset
-All(d) == {LD.scheme[a] \o LD.userinfo[b] \o LD.host[c] \o LD.port[dd] \o LD.path[e] \o LD.query[f] \o LD.frag[g] :
-             a \in 1..Len(LD.scheme), b \in 1..Len(LD.userinfo), c \in 1..Len(LD.host), dd \in 1..Len(LD.port),
-             e \in 1..Len(LD.path), f \in 1..Len(LD.query), g \in 1..Len(LD.frag)}
-Gen(d) == IF SN = 0 THEN All(0) ELSE {Pick(f) : f \in RandomSubset(SN, [1..7 -> 0..359])}
+SensibleIdx(f) == Sensible(Dims[1][(f[1] % Len(Dims[1])) + 1], Dims[5][(f[5] % Len(Dims[5])) + 1])
+Bad(d) == {LD.scheme[a] \o LD.userinfo[b] \o LD.host[c] \o LD.port[dd] \o LD.path[e] \o LD.query[f] \o LD.frag[g] :
+                  a \in {i \in 1..Len(LD.scheme) : LD.scheme[i] = <<>>}, b \in 1..Len(LD.userinfo), c \in 1..Len(LD.host), dd \in 1..Len(LD.port),
+                  e \in {i \in 1..Len(LD.path) : StartsWith(LD.path[i], <<47, 47>>)}, f \in 1..Len(LD.query), g \in 1..Len(LD.frag)}
+Gen(d) == IF SN = 0
+          THEN {LD.scheme[a] \o LD.userinfo[b] \o LD.host[c] \o LD.port[dd] \o LD.path[e] \o LD.query[f] \o LD.frag[g] :
+                  a \in 1..Len(LD.scheme), b \in 1..Len(LD.userinfo), c \in 1..Len(LD.host), dd \in 1..Len(LD.port),
+                  e \in 1..Len(LD.path), f \in 1..Len(LD.query), g \in 1..Len(LD.frag)} \ Bad(0)
+          ELSE {Pick(f) : f \in {x \in RandomSubset(SN, [1..7 -> 0..359]) : SensibleIdx(x)}}
 GenInit == url = <<>> /\ sa = FALSE /\ stage = 9 /\ reg = <<>> /\ JsonSerialize(IOEnv.GEN_OUT, [urls |-> SetToSeq(Gen(0))])
 GenNext == FALSE /\ UNCHANGED vars
 =============================================================================
